@@ -128,16 +128,20 @@ class SourceFile:
 
 
 def _parse_sub(arg):
-    m = re.match(r'\s*(\d+)\s+/(.*)/\s*=>\s?(.*)$', arg, re.S)
+    # the hit count is a number, `+` (one or more) or `*` (any number): the open counts are for
+    # path-like rewrites (`core::cmp::max(` -> a contract-carrying stub) whose meaning does not
+    # depend on how often the code uses them
+    m = re.match(r'\s*(\d+|\+|\*)\s+/(.*)/\s*=>\s?(.*)$', arg, re.S)
     if not m:
         raise ValueError('bad sub directive: %r' % arg)
-    return int(m.group(1)), m.group(2), m.group(3)
+    n = m.group(1)
+    return (int(n) if n.isdigit() else n), m.group(2), m.group(3)
 
 
 def _apply_sub(text, n, rx, repl, what):
     new, k = re.subn(rx, repl.replace('\\n', '\n'), text, flags=re.S)
-    if k != n:
-        raise LostAnchor('%s: rewrite /%s/ has %d hits, expected %d' % (what, rx, k, n))
+    if (n == '+' and k < 1) or (isinstance(n, int) and k != n):
+        raise LostAnchor('%s: rewrite /%s/ has %d hits, expected %s' % (what, rx, k, n))
     return new
 
 
@@ -290,11 +294,11 @@ def expand_template(tpl_text, repo, tpl_name='unit', canary=False):
             if d == 'sigsub':
                 n, rx, repl = _parse_sub(arg)
                 sig = _apply_sub(sig, n, rx, repl, what + ' (signature)')
-                ex.rule_hits['sigsub:' + rx] = n
+                ex.rule_hits['sigsub:' + rx] = n if isinstance(n, int) else 1
             elif d == 'sub':
                 n, rx, repl = _parse_sub(arg)
                 body = _apply_sub(body, n, rx, repl, what)
-                ex.rule_hits['sub:' + rx] = ex.rule_hits.get('sub:' + rx, 0) + n
+                ex.rule_hits['sub:' + rx] = ex.rule_hits.get('sub:' + rx, 0) + (n if isinstance(n, int) else 1)
             elif d == 'header':
                 header = text
             elif d == 'loop':
